@@ -5,7 +5,9 @@ import (
 	"context"
 	"fmt"
 	"io"
+	"reflect"
 
+	"github.com/paulmach/osm"
 	"github.com/paulmach/osm/osmpbf"
 
 	"verif/gen/pbfgen"
@@ -21,6 +23,10 @@ import (
 //	header-twice    Header() twice, Scan to the end, Header() a third time
 //	header-between  Header() before every Scan call
 //	scan-past-end   Header(), Scan to the end, then Scan three more times
+//	three-scans     the file is scanned three times in a row by three scanners: the objects
+//	                of the first scan are still what they were after the second one ran; the
+//	                caller then writes into every object of the second scan (they are the
+//	                caller's), and the third scan is the one the standard oracle judges
 //	reader-*        the usual calls, but the io.Reader hands the stream over in
 //	                pieces of at most 1 / 7 bytes, or returns io.EOF together
 //	                with the last bytes (all allowed by the io.Reader contract)
@@ -41,8 +47,6 @@ func scanMode(r *kit.Run, data []byte, procs int, mode string, want *osmpbf.Head
 	case "reader-eof-with-data":
 		in = &chunkReader{data: data, max: 4096, eofWithData: true}
 	}
-	s := osmpbf.New(context.Background(), in, procs)
-	defer s.Close()
 	var res pbfrun.Result
 	var wrong string
 	note := func(format string, a ...interface{}) {
@@ -50,6 +54,50 @@ func scanMode(r *kit.Run, data []byte, procs int, mode string, want *osmpbf.Head
 			wrong = fmt.Sprintf(format, a...)
 		}
 	}
+	if mode == "three-scans" {
+		full := func() []osm.Object {
+			sc := osmpbf.New(context.Background(), bytes.NewReader(data), procs)
+			defer sc.Close()
+			var out []osm.Object
+			for sc.Scan() {
+				out = append(out, sc.Object())
+			}
+			return out
+		}
+		first := full()
+		kept := kit.DeepCopy(first)
+		second := full()
+		if !reflect.DeepEqual(first, kept) {
+			note("the objects returned by the first scan changed while a second scanner read the same file")
+		}
+		for _, o := range second {
+			switch x := o.(type) {
+			case *osm.Node:
+				x.Lat, x.Lon, x.User, x.Version = 99, 99, "scribble", -1
+				for i := range x.Tags {
+					x.Tags[i] = osm.Tag{Key: "scribble", Value: "x"}
+				}
+			case *osm.Way:
+				x.User, x.Version = "scribble", -1
+				for i := range x.Tags {
+					x.Tags[i] = osm.Tag{Key: "scribble", Value: "x"}
+				}
+				for i := range x.Nodes {
+					x.Nodes[i] = osm.WayNode{ID: -1, Lat: 99, Lon: 99}
+				}
+			case *osm.Relation:
+				x.User, x.Version = "scribble", -1
+				for i := range x.Tags {
+					x.Tags[i] = osm.Tag{Key: "scribble", Value: "x"}
+				}
+				for i := range x.Members {
+					x.Members[i] = osm.Member{Type: "scribble", Ref: -1, Role: "x"}
+				}
+			}
+		}
+	}
+	s := osmpbf.New(context.Background(), in, procs)
+	defer s.Close()
 	header := func(when string, ended bool) *osmpbf.Header {
 		h, err := s.Header()
 		if err != nil {
@@ -101,7 +149,7 @@ func scanMode(r *kit.Run, data []byte, procs int, mode string, want *osmpbf.Head
 			}
 		}
 		header("asked after the scan", true)
-	case "reader-1-byte", "reader-7-bytes", "reader-eof-with-data":
+	case "reader-1-byte", "reader-7-bytes", "reader-eof-with-data", "three-scans":
 		res.Header, res.HeaderErr = s.Header()
 		for s.Scan() {
 			res.Objects = append(res.Objects, s.Object())
